@@ -212,6 +212,37 @@ def _in_loop(fn: ast.AST, target: ast.AST) -> bool:
     return bool(walk(fn, False))
 
 
+def split_tuple_assignments(tree: ast.Module) -> int:
+    """`a, b = X, Y` -> `a = X; b = Y` when no target name occurs in the right-hand side and the targets are
+    plain names (evaluation order and values are the same)."""
+    count = 0
+    for node in ast.walk(tree):
+        for field in ('body', 'orelse', 'finalbody'):
+            body = getattr(node, field, None)
+            if not isinstance(body, list):
+                continue
+            new_body = []
+            for st in body:
+                if isinstance(st, ast.Assign) and len(st.targets) == 1 and isinstance(st.targets[0], ast.Tuple) \
+                        and isinstance(st.value, ast.Tuple) and len(st.targets[0].elts) == len(st.value.elts) \
+                        and all(isinstance(t, ast.Name) for t in st.targets[0].elts) \
+                        and not any(isinstance(v, ast.Starred) for v in st.value.elts):
+                    tnames = {t.id for t in st.targets[0].elts}
+                    rnames = {x.id for x in ast.walk(st.value) if isinstance(x, ast.Name)}
+                    if not (tnames & rnames):
+                        for t, v in zip(st.targets[0].elts, st.value.elts):
+                            a = ast.Assign(targets=[t], value=v)
+                            ast.copy_location(a, st)
+                            a._split_from_tuple = True  # type: ignore[attr-defined]
+                            new_body.append(a)
+                        count += 1
+                        continue
+                new_body.append(st)
+            if len(new_body) != len(body):
+                body[:] = new_body
+    return count
+
+
 def inline_aliases(tree: ast.Module) -> int:
     """`x = self.stable_attr` / `m = obj.method` / `y = x`: replace the uses of such single-assignment
     locals by what they stand for (in the function and in the closures that capture them).
@@ -229,6 +260,18 @@ def inline_aliases(tree: ast.Module) -> int:
             for m in c.body:
                 if isinstance(m, _FN):
                     methods.add(m.name)
+
+    # public attributes that hold an object the constructor itself builds (`self.q = Queue()`): infrastructure,
+    # as stable as a private attribute; public attributes copied from a constructor argument are settings
+    built_attrs: Set[str] = set()
+    for fn0 in ast.walk(tree):
+        if isinstance(fn0, _FN) and fn0.name == '__init__':
+            for st0 in ast.walk(fn0):
+                if isinstance(st0, (ast.Assign, ast.AnnAssign)) and getattr(st0, 'value', None) is not None:
+                    tg0 = st0.targets[0] if isinstance(st0, ast.Assign) else st0.target
+                    if isinstance(tg0, ast.Attribute) and isinstance(tg0.value, ast.Name) and tg0.value.id == 'self' \
+                            and isinstance(st0.value, ast.Call):
+                        built_attrs.add(tg0.attr)
 
     def scan(node, in_init):
         for ch in ast.iter_child_nodes(node):
@@ -268,7 +311,28 @@ def inline_aliases(tree: ast.Module) -> int:
             if r in bound:
                 st = assigns.get(r)
                 return bound[r] == 1 and st is not None and not _in_loop(fn, st)
-            return r == 'self'      # free variable `self` of a closure inside a method
+            if r == 'self':
+                return True         # free variable `self` of a closure inside a method
+            # a free variable: parameter / single-assignment local (outside loops) of an enclosing function
+            outer = getattr(fn, '_alias_parent', None)
+            while outer is not None:
+                if isinstance(outer, _FN):
+                    ob = _bound_names(outer)
+                    if r in ob:
+                        op_ = {p.arg for p in outer.args.posonlyargs + outer.args.args + outer.args.kwonlyargs}
+                        if ob[r] != 1:
+                            return False
+                        if r in op_:
+                            return True
+                        ost = None
+                        for n_ in _own(outer):
+                            if isinstance(n_, ast.Assign) and len(n_.targets) == 1 and isinstance(n_.targets[0], ast.Name) and n_.targets[0].id == r:
+                                ost = n_
+                            elif isinstance(n_, ast.AnnAssign) and isinstance(n_.target, ast.Name) and n_.target.id == r and n_.value is not None:
+                                ost = n_
+                        return ost is not None and not _in_loop(outer, ost)
+                outer = getattr(outer, '_alias_parent', None)
+            return False
 
         subst: Dict[str, ast.expr] = {}
         for a, st in assigns.items():
@@ -299,7 +363,7 @@ def inline_aliases(tree: ast.Module) -> int:
                     continue
                 if first in methods and first not in init_attrs and len(chain) == 1:
                     rest = []            # bound method of self: falls through to the callable-only test
-                elif first not in init_attrs or not first.startswith('_'):
+                elif first not in init_attrs or not (first.startswith('_') or first in built_attrs):
                     # a public attribute is part of the API: its user may re-assign it at any time, so reading
                     # it early is not the same as reading it late (seeded change C10-1)
                     continue
